@@ -180,6 +180,156 @@ def classify_exporter(case, real, rep):
     return sigs[0] if sigs else None
 
 
+def bond_energies_error_sig(e, H_bond, finite, sites=None):
+    """`H_bond` entries may be None (documented: "list of {Array | None}"); bond_energies passes them on"""
+    bonds = H_bond[1:] if finite else H_bond
+    if isinstance(e, AttributeError) and "'NoneType' object has no attribute" in str(e) and any(h is None for h in bonds):
+        return 'energy.bond_energies.H_bond_entry_None'
+    if not finite and sites is not None and isinstance(e, ValueError) and 'incompatible LegCharge' in str(e):
+        # H_bond[i] (sites i-1, i) contracted with the state on sites (i, i+1): the legs differ in a mixed unit cell
+        L = len(sites)
+        if any(sites[(i - 1) % L].leg != sites[(i + 1) % L].leg for i in range(L)):
+            return 'energy.bond_energies.infinite.evaluated_on_sites_i_i+1'
+    return f'energy.bond_energies.error.{type(e).__name__}'
+
+
+def nn_finite_bond_energies(M, H_bond, fails, facts):
+    """finite nearest-neighbour model: bond_energies of a random product of basis states, E_bond[i] = energy of bond
+    (i, i+1) = diagonal element of H_bond[i+1]"""
+    from tenpy.models.model import NearestNeighborModel
+    from tenpy.networks.mps import MPS
+    import zlib
+    sites = M.lat.mps_sites()
+    L = len(sites)
+    rs = np.random.RandomState(zlib.crc32(repr([s.dim for s in sites]).encode()) % (1 << 30))
+    state = [int(rs.randint(s.dim)) for s in sites]
+    psi = MPS.from_product_state(sites, state, bc='finite', permute=False, unit_cell_width=M.lat.mps_unit_cell_width)
+    nn = NearestNeighborModel(M.lat, H_bond)
+    facts['bond_energies_finite'] = True
+    try:
+        with warnings.catch_warnings():
+            warnings.simplefilter('ignore')
+            E = np.asarray(nn.bond_energies(psi))
+    except Exception as e:  # noqa: BLE001
+        fails.append(('property', bond_energies_error_sig(e, H_bond, True), traceback.format_exc()[-1200:]))
+        return
+    want = []
+    for i in range(L - 1):
+        hb = H_bond[i + 1]
+        k = state[i] * sites[i + 1].dim + state[i + 1]
+        want.append(0.0 if hb is None else cm.bond_dense(hb)[k, k])
+    want = np.array(want)
+    if E.shape != want.shape or np.max(np.abs(E - want)) > 1e-9 * max(1.0, float(np.max(np.abs(want)))):
+        fails.append(('property', 'energy.bond_energies.finite_mismatch',
+                      f'bond_energies = {E.tolist()}, diagonal elements of H_bond[i+1] = {want.tolist()}'))
+
+
+def nn_infinite_checks(M, case, real, H, n_cells, N, tol, reps, fails, facts):
+    """infinite nearest-neighbour models: bond operators, MPO from bonds, bonds from MPO and their round trip denote the
+    operator of the terms; energies of a random iMPS from the MPO, the MPO from the bonds and the bond energies agree
+    with the term-by-term reference"""
+    from tenpy.models.model import NearestNeighborModel, MPOModel, CouplingModel
+    lat = M.lat
+    coupling = isinstance(M, CouplingModel)
+    n = n_cells * N
+    if n < 2:
+        return
+    try:
+        H_bond = M.calc_H_bond() if coupling else getattr(M, 'H_bond', None)
+    except (ValueError, AssertionError) as e:
+        if isinstance(e, ValueError) and 'nearest' not in str(e).lower() and 'exp_decaying' not in str(e):
+            reps['calc_H_bond'] = e
+        return
+    if H_bond is None or all(h is None for h in H_bond):
+        return
+    facts['nn_infinite'] = True
+    dims = [s.dim for s in lat.mps_sites()] * n_cells
+    mod = {}
+
+    def attempt(name, fn):
+        try:
+            mod[name] = fn()
+        except Exception as e:  # noqa: BLE001
+            reps[name] = e          # classified like the finite representations
+
+    nn = NearestNeighborModel(lat, H_bond)
+    store = {}
+    attempt('bonds', lambda: cm.bonds_window_dense(H_bond, dims, n))
+
+    def mpo_from_bond():
+        store['H2'] = nn.calc_H_MPO_from_bond()
+        return cm.mpo_window_dense(store['H2'], n)
+    attempt('mpo_from_bond', mpo_from_bond)
+    attempt('bond_from_mpo', lambda: cm.bonds_window_dense(M.calc_H_bond_from_MPO(), dims, n))
+    if 'H2' in store:
+        def roundtrip():
+            nn2 = NearestNeighborModel.from_MPOModel(MPOModel(lat, store['H2']))
+            store['nn2'] = nn2
+            return cm.bonds_window_dense(nn2.H_bond, dims, n)
+        attempt('bond_mpo_bond_roundtrip', roundtrip)
+    for name, W in mod.items():
+        facts['rep.' + name + '_infinite'] = True
+        # up to on-site terms on the two boundary sites of the window and a constant (see strip_boundary_onsite)
+        d = float(np.max(np.abs(cm.strip_boundary_onsite(W - H, dims)))) if W.size else 0.0
+        if not d <= tol:
+            fails.append(('property', f'dense.{name}.infinite_mismatch',
+                          f'{name}: operator on a window of {n} sites differs from the represented operator by {d:.3e} '
+                          f'beyond boundary on-site terms (tol {tol:.1e})'))
+    # ---- energies of a random iMPS (also fixes the constant and the boundary terms left open above)
+    if real.get('plain'):
+        H_small = cm.mpo_window_dense(M.H_MPO, n - N) if n - N >= 1 else None
+    else:
+        H_small = cm.oracle_matrix(case, lat, n_cells=n_cells - 1)[0] if n_cells >= 2 else None
+    if H_small is None:
+        return
+    import zlib
+    seed = zlib.crc32(json.dumps(case, sort_keys=True, default=str).encode()) % (1 << 30)
+    psi = cm.random_imps(lat.mps_sites(), seed, chi=3 if np.prod(dims) <= 300 else 2, width=lat.mps_unit_cell_width)
+    rho_n = cm.rho_window_dense(psi, n)
+    e_cell = np.trace(rho_n @ H)
+    if n - N >= 1:
+        e_cell = e_cell - np.trace(cm.rho_window_dense(psi, n - N) @ H_small)
+    scale = max(1.0, abs(e_cell), float(np.max(np.abs(H))))
+    etol = 1e-9 * scale
+    facts['nn_infinite_energy'] = True
+
+    def energy(name, fn):
+        try:
+            v = complex(fn())
+        except Exception as e:  # noqa: BLE001
+            fails.append(('property', f'energy.{name}.error.{type(e).__name__}', traceback.format_exc()[-1200:]))
+            return
+        if abs(v - e_cell) > etol:
+            fails.append(('property', f'energy.{name}.mismatch',
+                          f'energy per unit cell of a random iMPS: {name} gives {v!r}, term-by-term reference {complex(e_cell)!r}'))
+    energy('H_MPO.expectation_value', lambda: M.H_MPO.expectation_value(psi) * N)
+    if 'H2' in store:
+        energy('mpo_from_bond.expectation_value', lambda: store['H2'].expectation_value(psi) * N)
+    # bond energies: E_bond[i] is documented as the energy of bond (i-1, i)
+    try:
+        E = np.asarray(nn.bond_energies(psi))
+    except Exception as e:  # noqa: BLE001
+        fails.append(('property', bond_energies_error_sig(e, H_bond, False, lat.mps_sites()), traceback.format_exc()[-1200:]))
+        return
+    want = np.array([np.trace(cm.rho_window_dense(psi, 2, first=i - 1) @ cm.bond_dense(H_bond[i])) if H_bond[i] is not None
+                     else 0.0 for i in range(N)])
+    shifted = np.array([np.trace(cm.rho_window_dense(psi, 2, first=i) @ cm.bond_dense(H_bond[i])) if H_bond[i] is not None
+                        else 0.0 for i in range(N)])
+    if abs(np.sum(want) - e_cell) > etol:
+        fails.append(('property', 'energy.H_bond.sum_mismatch',
+                      f'sum of <H_bond[i]> on sites (i-1, i) = {complex(np.sum(want))!r}, reference {complex(e_cell)!r}'))
+    if np.max(np.abs(E - want)) > etol:
+        same_dims = all(lat.mps_sites()[(i - 1) % N].dim == lat.mps_sites()[(i + 1) % N].dim for i in range(N))
+        if same_dims and np.max(np.abs(E - shifted)) <= etol:
+            fails.append(('property', 'energy.bond_energies.infinite.evaluated_on_sites_i_i+1',
+                          f'bond_energies = {np.round(E, 8).tolist()} are <H_bond[i]> on sites (i, i+1); on the documented '
+                          f'sites (i-1, i): {np.round(want, 8).tolist()}; sum {complex(np.sum(E))!r} vs energy per unit cell '
+                          f'{complex(e_cell)!r}'))
+        else:
+            fails.append(('property', 'energy.bond_energies.mismatch',
+                          f'bond_energies = {E.tolist()}, <H_bond[i]> on sites (i-1, i) = {want.tolist()}'))
+
+
 def check_case(case, lean_out, real=None, use_model=True):
     """returns list of (kind, signature, detail) failures and a dict of facts for the histogram"""
     fails = []
@@ -230,6 +380,20 @@ def check_case(case, lean_out, real=None, use_model=True):
     reps = {}
     if not infinite:
         reps = cm.representations(M, case)
+        try:
+            from tenpy.models.model import CouplingModel
+            Hb_f = None
+            if N >= 2:
+                with warnings.catch_warnings():
+                    warnings.simplefilter('ignore')
+                    try:
+                        Hb_f = M.calc_H_bond() if isinstance(M, CouplingModel) else getattr(M, 'H_bond', None)
+                    except (ValueError, AssertionError):
+                        Hb_f = None
+            if Hb_f is not None and any(h is not None for h in Hb_f):
+                nn_finite_bond_energies(M, Hb_f, fails, facts)
+        except Exception:  # noqa: BLE001
+            fails.append(('correspondence', 'harness.nn_finite.exception', traceback.format_exc()[-1500:]))
     else:
         from tenpy.algorithms.exact_diag import ExactDiag
         import copy
@@ -276,6 +440,12 @@ def check_case(case, lean_out, real=None, use_model=True):
                 return cm.ed_dense(ed)
             attempt('grouped_segment', grouped_segment)
         attempt('window', lambda: cm.mpo_window_dense(M.H_MPO, n_cells * N))
+        try:
+            with warnings.catch_warnings():
+                warnings.simplefilter('ignore')
+                nn_infinite_checks(M, case, real, H, n_cells, N, tol, reps, fails, facts)
+        except Exception:  # noqa: BLE001
+            fails.append(('correspondence', 'harness.nn_infinite.exception', traceback.format_exc()[-1500:]))
     for name, rep in reps.items():
         facts['rep.' + name] = True
         if isinstance(rep, Exception):
